@@ -9,11 +9,14 @@
                                                 prolog_end_place)
      core::slice::binary_search_by             (Rust 1.89, library/core/src/slice/mod.rs:2971)
 
+   State of /repo: HEAD 9f6d836 (after the repairs 5a7aaa1, e485ae3, 0bd2878, 6aa083d).
+
    The input of the model is what the parser leaves in memory: `BsUnit.lines` AFTER
-   `lines.sort_unstable_by_key(|x| x.address)` (parser.rs:60), `BsUnit.ranges` AFTER
-   `ranges.sort_unstable_by_key(|r| r.begin)` (parser.rs:66) and `fn_ranges` AFTER
-   `fn_ranges.sort_unstable_by_key(|dr| dr.range.begin)` (parser.rs:292).  The order of equal keys is
-   not determined by the code; it is part of the input here.
+   `lines.sort_by_key(|x| x.address)` (parser.rs:61, a STABLE sort since e485ae3: rows of equal
+   address keep their line-program order; [stable_sort] below is that sort), `BsUnit.ranges` AFTER
+   `ranges.sort_unstable_by_key(|r| r.begin)` (parser.rs:67) and `fn_ranges` AFTER
+   `fn_ranges.sort_unstable_by_key(|dr| dr.range.begin)` (parser.rs:293).  For the two unstable
+   sorts the order of equal keys is not determined by the code; it is part of the input here.
 
    No proofs in this file. *)
 From BS Require Import Model.Base.
@@ -119,35 +122,63 @@ Definition find_place_by_idx (u : unit) (i : nat) : res (option place) :=
   | Some r => p <- mk_place u i r ;; Ok (Some p)
   end.
 
-(* unit/mod.rs:445 find_place_by_pc: `.unwrap_or_else(|p| p.saturating_sub(1))` *)
-Definition pc_pos (rows : list row) (pc : N) : res nat :=
+(* `.binary_search_by_key(&pc, |line| line.address).unwrap_or_else(|p| p.saturating_sub(1))`
+   (find_place_by_pc unit/mod.rs:448, find_eb :475) *)
+Definition bs_pos (rows : list row) (pc : N) : res nat :=
   b <- bsearch (map r_addr rows) pc ;;
   Ok (match b with Found i => i | NotFound p => (p - 1)%nat end).
 
-Definition find_place_by_pc (u : unit) (pc : N) : res (option place) :=
-  pos <- pc_pos (u_rows u) pc ;;
-  find_place_by_idx u pos.
+(* number of leading rows of [l] whose address is [a] *)
+Fixpoint count_run (a : N) (l : list row) : nat :=
+  match l with
+  | r :: t => if r_addr r =? a then S (count_run a t) else O
+  | [] => O
+  end.
 
-(* unit/mod.rs:483 find_exact_place_by_pc.
-   [ovf] = arithmetic overflow checks are compiled in (dev/test profile: yes; release profile of
-   /repo/Cargo.toml: no).  State of [exact_back]: about to execute `p -= 1` with the current [p] and
-   the current [place].  At p = 0 the subtraction panics with overflow checks ([Panic 3]); without
-   them p wraps to usize::MAX, `lines.get(usize::MAX)` is None and the loop ends. *)
-Fixpoint exact_back (ovf : bool) (u : unit) (pc : N) (p : nat) (pl : option place) : res (option place) :=
-  match p with
-  | O => if ovf then Panic 3 else Ok pl
-  | S p' =>
-      n <- find_place_by_idx u p' ;;
-      match n with
-      | Some q => if r_addr (snd q) =? pc then exact_back ovf u pc p' (Some q) else Ok pl
-      | None => Ok pl
+(* `(first..=last).rev().find(|&idx| !self.lines[idx].end_sequence())` : examines the indices
+   first+n-1, ..., first; `self.lines[idx]` out of range -> [Panic 9] (unreachable) *)
+Fixpoint rfind_non_es (rows : list row) (first n : nat) : res (option nat) :=
+  match n with
+  | O => Ok None
+  | S n' =>
+      match nth_error rows (first + n') with
+      | None => Panic 9
+      | Some r => if r_es r then rfind_non_es rows first n' else Ok (Some (first + n')%nat)
       end
   end.
 
-Definition find_exact_place_by_pc (ovf : bool) (u : unit) (pc : N) : res (option place) :=
+(* unit/mod.rs:446-469 find_place_by_pc (since e485ae3).  After the binary search:
+     let addr = self.lines.get(pos)?.address;
+     while first > 0 && lines[first-1].address == addr { first -= 1 }
+     while last + 1 < len && lines[last+1].address == addr { last += 1 }
+   The two loops only index inside the vector (guards `first > 0`, `last + 1 < len`); they are
+   written here as the length of the run of equal addresses before / after [pos]. *)
+Definition pc_pos (rows : list row) (pc : N) : res (option nat) :=
+  pos <- bs_pos rows pc ;;
+  match nth_error rows pos with
+  | None => Ok None
+  | Some r =>
+      let a := r_addr r in
+      let first := (pos - count_run a (rev (firstn pos rows)))%nat in
+      let last := (pos + count_run a (skipn (S pos) rows))%nat in
+      o <- rfind_non_es rows first (S (last - first)) ;;
+      Ok (Some (match o with Some i => i | None => pos end))
+  end.
+
+Definition find_place_by_pc (u : unit) (pc : N) : res (option place) :=
+  o <- pc_pos (u_rows u) pc ;;
+  match o with
+  | None => Ok None
+  | Some pos => find_place_by_idx u pos
+  end.
+
+(* unit/mod.rs:492-506 find_exact_place_by_pc (since 5a7aaa1):
+     Ok(mut p) => { while p > 0 && self.lines[p - 1].address == pc { p -= 1 }  find_place_by_idx(p) }
+   no arithmetic below 0 any more; the build profile is irrelevant *)
+Definition find_exact_place_by_pc (u : unit) (pc : N) : res (option place) :=
   b <- bsearch (map r_addr (u_rows u)) pc ;;
   match b with
-  | Found p => pl <- find_place_by_idx u p ;; exact_back ovf u pc p pl
+  | Found p => find_place_by_idx u (p - count_run pc (rev (firstn p (u_rows u))))%nat
   | NotFound _ => Ok None
   end.
 
@@ -187,11 +218,11 @@ Definition find_place_from_pc (units : list unit) (pc : N) : res (option (nat * 
   | Some (ui, u) => p <- find_place_by_pc u pc ;; Ok (option_map (pair ui) p)
   end.
 
-Definition find_exact_place_from_pc (ovf : bool) (units : list unit) (pc : N) : res (option (nat * place)) :=
+Definition find_exact_place_from_pc (units : list unit) (pc : N) : res (option (nat * place)) :=
   uo <- find_unit_by_pc units pc ;;
   match uo with
   | None => Ok None
-  | Some (ui, u) => p <- find_exact_place_by_pc ovf u pc ;; Ok (option_map (pair ui) p)
+  | Some (ui, u) => p <- find_exact_place_by_pc u pc ;; Ok (option_map (pair ui) p)
   end.
 
 (* `while idx < die_ranges.len() && die_ranges[idx].range.begin == pc { idx += 1 }` started at
@@ -243,7 +274,7 @@ Definition find_function_by_pc (units : list unit) (pc : N) : res (option (nat *
   end.
 
 (* ------------------------------------------------------------------------------------------ *)
-(* dwarf/mod.rs:346 find_closest_place                                                        *)
+(* dwarf/mod.rs:356 find_closest_place                                                        *)
 (* ------------------------------------------------------------------------------------------ *)
 
 (* unit/mod.rs:657 file_path_with_lines_pairs: the indices of the rows of file [f], in the order
@@ -260,52 +291,6 @@ Definition file_lines (u : unit) (f : N) : list nat := file_lines_from 0 (u_rows
 Definition line_at (u : unit) (i : nat) : res row :=
   match nth_error (u_rows u) i with Some r => Ok r | None => Panic 6 end.
 
-(* the look-ahead loop (dwarf/mod.rs:391-408) over the entries of file_lines that follow the
-   first hit: continue while they are is_stmt rows of the same line, stop at the first one that is
-   a prologue end.  Result: Some (its row index, its row, the entries after it). *)
-Fixpoint lookahead (u : unit) (line : N) (rest : list nat) : res (option (nat * row * list nat)) :=
-  match rest with
-  | [] => Ok None
-  | a :: rest' =>
-      r <- line_at u a ;;
-      if negb (r_line r =? line) || negb (r_stmt r) then Ok None
-      else if r_pe r then Ok (Some (a, r, rest'))
-      else lookahead u line rest'
-  end.
-
-(* the `else` branch (dwarf/mod.rs:413-440) *)
-Definition same_shape (p0 r : row) : bool :=
-  (r_line r =? r_line p0) && (r_col r =? r_col p0) && Bool.eqb (r_pe r) (r_pe p0)
-  && Bool.eqb (r_eb r) (r_eb p0) && Bool.eqb (r_es r) (r_es p0) && r_stmt r.
-
-Fixpoint scan_rest (u : unit) (p0 : row) (fl : list nat) : res (list place) :=
-  match fl with
-  | [] => Ok []
-  | i :: t =>
-      r <- line_at u i ;;
-      if same_shape p0 r then
-        p <- mk_place u i r ;; tl <- scan_rest u p0 t ;; Ok (p :: tl)
-      else scan_rest u p0 t
-  end.
-
-(* the `while i < file_lines.len()` loop, as a recursion over the remaining entries of file_lines
-   (the loop index only moves forward).  `find_place_by_idx(line_idx)` is applied to an index for
-   which `unit.line(line_idx)` has just succeeded, so it cannot return None; the model builds the
-   place from the row already fetched ([mk_place] keeps the `expect`). *)
-Fixpoint scan_first (u : unit) (needle : N) (fl : list nat) : res (list place) :=
-  match fl with
-  | [] => Ok []
-  | i :: t =>
-      r <- line_at u i ;;
-      if negb (r_line r =? needle) || negb (r_stmt r) then scan_first u needle t
-      else
-        la <- lookahead u (r_line r) t ;;
-        match la with
-        | Some (a, ra, rest') => p <- mk_place u a ra ;; tl <- scan_rest u ra rest' ;; Ok (p :: tl)
-        | None => p <- mk_place u i r ;; tl <- scan_rest u r t ;; Ok (p :: tl)
-        end
-  end.
-
 (* the HashSet key: (FunctionInfo.name, func.ranges()) *)
 Notation fkey := (option bstr * list (N * N))%type (only parsing).
 Definition range_eqb (a b : range) : bool := (fst a =? fst b) && (snd a =? snd b).
@@ -319,29 +304,44 @@ Definition fkey_eqb (a b : fkey) : bool :=
   oname_eqb (fst a) (fst b) && list_eqb range_eqb (snd a) (snd b).
 Definition fkey_of (info : fn_info) : fkey := (f_name info, f_ranges info).
 
-(* dwarf/mod.rs:445-461; a found place is (unit index, place) *)
-Fixpoint filter_unique (units : list unit) (ui : nat) (seen : list fkey) (ps : list place)
-  : res (list fkey * list (nat * place)) :=
-  match ps with
-  | [] => Ok (seen, [])
-  | p :: t =>
-      fo <- find_function_by_pc units (r_addr (snd p)) ;;
-      match fo with
-      | Some (_, _, info) =>
-          let k := fkey_of info in
-          if existsb (fkey_eqb k) seen then filter_unique units ui seen t
-          else
-            r <- filter_unique units ui (k :: seen) t ;;
-            Ok (fst r, (ui, p) :: snd r)
-      | None =>
-          r <- filter_unique units ui seen t ;;
-          Ok (fst r, (ui, p) :: snd r)
-      end
+(* `places_in_unit.iter_mut().find(|(k, _)| k.as_ref() == Some(&key))`: the first entry with this
+   key gets the new place if that one is a prologue end and the chosen one is not; no entry -> push *)
+Definition okey_is (k : fkey) (ko : option fkey) : bool :=
+  match ko with Some k' => fkey_eqb k' k | None => false end.
+Fixpoint upd_acc (k : fkey) (p : place) (acc : list (option fkey * place)) : list (option fkey * place) :=
+  match acc with
+  | [] => [(Some k, p)]
+  | (ko, c) :: t =>
+      if okey_is k ko then (ko, if r_pe (snd p) && negb (r_pe (snd c)) then p else c) :: t
+      else (ko, c) :: upd_acc k p t
+  end.
+
+(* the `for &line_idx in file_lines` loop of find_closest_place (dwarf/mod.rs:390-427, since 0bd2878);
+   [acc] = places_in_unit, [seen] = unique_subprograms.  `find_place_by_idx(line_idx)` is applied to
+   an index for which `unit.line(line_idx)` has just succeeded, so it cannot return None; the model
+   builds the place from the row already fetched ([mk_place] keeps the `expect`). *)
+Fixpoint group_rows (units : list unit) (u : unit) (needle : N) (seen : list fkey)
+                    (acc : list (option fkey * place)) (fl : list nat) : res (list (option fkey * place)) :=
+  match fl with
+  | [] => Ok acc
+  | i :: t =>
+      r <- line_at u i ;;
+      if negb (r_line r =? needle) || negb (r_stmt r) || r_es r then group_rows units u needle seen acc t
+      else
+        p <- mk_place u i r ;;
+        fo <- find_function_by_pc units (r_addr r) ;;
+        match fo with
+        | None => group_rows units u needle seen (acc ++ [(None, p)]) t
+        | Some (_, _, info) =>
+            let k := fkey_of info in
+            if existsb (fkey_eqb k) seen then group_rows units u needle seen acc t
+            else group_rows units u needle seen (upd_acc k p acc) t
+        end
   end.
 
 (* `for (unit_idx, file_lines) in &files`; [files] is the answer of `files_index.get(file_tpl)`
    (PathSearchIndex, property C17) as (unit index, file index) pairs; `unit_ensure(idx)` = `units[idx]`
-   -> [Panic 7] *)
+   -> [Panic 7]; afterwards the keys of places_in_unit go to unique_subprograms, the places to result *)
 Fixpoint closest_units (units : list unit) (needle : N) (files : list (nat * N)) (seen : list fkey)
   : res (list fkey * list (nat * place)) :=
   match files with
@@ -350,20 +350,19 @@ Fixpoint closest_units (units : list unit) (needle : N) (files : list (nat * N))
       match nth_error units ui with
       | None => Panic 7
       | Some u =>
-          sp <- scan_first u needle (file_lines u f) ;;
-          r1 <- filter_unique units ui seen sp ;;
-          r2 <- closest_units units needle t (fst r1) ;;
-          Ok (fst r2, snd r1 ++ snd r2)
+          acc <- group_rows units u needle seen [] (file_lines u f) ;;
+          r2 <- closest_units units needle t (filter_map fst acc ++ seen) ;;
+          Ok (fst r2, map (fun e => (ui, snd e)) acc ++ snd r2)
       end
   end.
 
 Definition U64_MAX : N := 18446744073709551615.
 
-(* `let possible_lines = &[line, line + 1];` is evaluated before the loops: with overflow checks
-   `line = u64::MAX` panics ([Panic 8]), without them it wraps to 0 *)
+(* `let possible_lines = &[line, line.saturating_add(1)];` - no overflow any more.  [ovf] is kept
+   only so that the callers need not change; it is not used. *)
 Definition find_closest_place (ovf : bool) (units : list unit) (files : list (nat * N)) (line : N)
   : res (list (nat * place)) :=
-  line1 <- (if line =? U64_MAX then (if ovf then Panic 8 else Ok 0) else Ok (line + 1)) ;;
+  let line1 := if line =? U64_MAX then U64_MAX else line + 1 in
   r1 <- closest_units units line files [] ;;
   match snd r1 with
   | _ :: _ => Ok (snd r1)
@@ -399,26 +398,46 @@ Definition prolog_start_place (units : list unit) (f : fn_info) : res (nat * pla
   p <- find_place_from_pc units low ;;
   match p with None => Err 2 | Some q => Ok q end.
 
-(* die_ref.rs:401 `while !place.prolog_end { match place.next() {None => break, Some(n) => place = n} }`;
-   nothing stops the walk at the end of the function or of the sequence.  The row index grows at
-   every step, so [length rows] steps are enough (proved); [OutOfFuel] is kept explicit. *)
-Fixpoint prolog_walk (u : unit) (fuel : nat) (p : place) : res place :=
+(* GlobalAddress::in_ranges over `self.ranges()` *)
+Definition addr_in_fn (g : fn_info) (a : N) : bool := existsb (in_range a) (f_ranges g).
+
+(* die_ref.rs:407-416 `next_in_function` (since 6aa083d), on the list suffix [l] = rows[idx..]:
+     let mut next = place.next()?;
+     while next.end_sequence && next.address.in_ranges(ranges) { next = next.next()?; }
+     (!next.end_sequence && next.address.in_ranges(ranges)).then_some(next)
+   every `next()` builds a PlaceDescriptor ([mk_place], `expect`) *)
+Fixpoint next_in_fn_l (u : unit) (g : fn_info) (idx : nat) (l : list row) : res (option place) :=
+  match l with
+  | [] => Ok None
+  | r :: t =>
+      p <- mk_place u idx r ;;
+      if r_es r && addr_in_fn g (r_addr r) then next_in_fn_l u g (S idx) t
+      else if negb (r_es r) && addr_in_fn g (r_addr r) then Ok (Some p) else Ok None
+  end.
+Definition next_in_fn (u : unit) (g : fn_info) (p : place) : res (option place) :=
+  next_in_fn_l u g (S (fst p)) (skipn (S (fst p)) (u_rows u)).
+
+(* die_ref.rs:421-434: `while !place.prolog_end { match next_in_function(..) { Some(n) => place = n,
+   None => return Ok(next_in_function(&start_place, ..).unwrap_or(start_place)) } }`.
+   The row index grows at every step, so [length rows] steps are enough (proved). *)
+Fixpoint prolog_walk (u : unit) (g : fn_info) (start : place) (fuel : nat) (p : place) : res place :=
   if r_pe (snd p) then Ok p else
   match fuel with
   | O => OutOfFuel
   | S fuel' =>
-      n <- find_place_by_idx u (S (fst p)) ;;
+      n <- next_in_fn u g p ;;
       match n with
-      | None => Ok p
-      | Some q => prolog_walk u fuel' q
+      | Some q => prolog_walk u g start fuel' q
+      | None => s <- next_in_fn u g start ;; Ok (match s with Some q => q | None => start end)
       end
   end.
 
+(* the rows walked are those of the unit in which find_place_from_pc found the start place *)
 Definition prolog_end_place (units : list unit) (f : fn_info) : res (nat * place) :=
   s <- prolog_start_place units f ;;
   match nth_error units (fst s) with
   | None => Panic 7
-  | Some u => p <- prolog_walk u (length (u_rows u)) (snd s) ;; Ok (fst s, p)
+  | Some u => p <- prolog_walk u f (snd s) (length (u_rows u)) (snd s) ;; Ok (fst s, p)
   end.
 
 (* ------------------------------------------------------------------------------------------ *)
@@ -433,6 +452,15 @@ Fixpoint seq_pairs (prog : list row) : list (row * row) :=
   | r :: ((r' :: _) as t) => if r_es r then seq_pairs t else (r, r') :: seq_pairs t
   | _ => []
   end.
+
+(* the parser's `lines.sort_by_key(|x| x.address)` (parser.rs:61): a stable sort by address of the
+   program-order rows (insertion sort as a specification of "stable") *)
+Fixpoint ins_row (x : row) (l : list row) : list row :=
+  match l with
+  | [] => [x]
+  | y :: t => if r_addr x <? r_addr y then x :: l else y :: ins_row x t
+  end.
+Definition stable_sort (l : list row) : list row := fold_left (fun acc x => ins_row x acc) l [].
 
 (* pc -> row: a non-end_sequence row r with r.addr <= pc < (address of the next row of its sequence) *)
 Definition covers (pc : N) (p : row * row) : Prop := r_addr (fst p) <= pc /\ pc < r_addr (snd p).
@@ -454,8 +482,10 @@ Definition function_of (drs : list die_range) (pc : N) (off : N) : Prop :=
 (* unit of a pc *)
 Definition unit_covers (u : unit) (pc : N) : Prop := exists r, In r (u_ranges u) /\ in_range pc r = true.
 
-(* file:line -> rows: the is_stmt rows of line L of file f of unit u *)
-Definition stmt_row (f line : N) (r : row) : bool := (r_file r =? f) && (r_line r =? line) && r_stmt r.
+(* file:line -> rows: the is_stmt, non-end_sequence rows of line L of file f of unit u *)
+(* an end_sequence row is not an instruction (its address is the first byte after the sequence) *)
+Definition stmt_row (f line : N) (r : row) : bool :=
+  (r_file r =? f) && (r_line r =? line) && r_stmt r && negb (r_es r).
 Definition line_has_code (units : list unit) (files : list (nat * N)) (line : N) : Prop :=
   exists ui f u r, In (ui, f) files /\ nth_error units ui = Some u /\ In r (u_rows u) /\ stmt_row f line r = true.
 Definition line_has_codeb (units : list unit) (files : list (nat * N)) (line : N) : bool :=
@@ -483,9 +513,11 @@ Definition line_places_ok (units : list unit) (files : list (nat * N)) (line : N
   (~ line_has_code units files line /\ forall p, In p ps -> is_line_place units files (line + 1) p).
 
 (* function instance g "contains the line" when a statement row of the line lies in its ranges *)
-Definition addr_in_fn (g : fn_info) (a : N) : bool := existsb (in_range a) (f_ranges g).
+(* an end_sequence row is not an instruction: its address is the first byte AFTER the sequence and
+   may be the first byte of the next function (functions are emitted back to back when the size of
+   the previous one is a multiple of the alignment), so it does not make that function "contain" the line *)
 Definition fn_has_line (u : unit) (f line : N) (g : fn_info) : bool :=
-  existsb (fun r => stmt_row f line r && addr_in_fn g (r_addr r)) (u_rows u).
+  existsb (fun r => stmt_row f line r && negb (r_es r) && addr_in_fn g (r_addr r)) (u_rows u).
 
 (* function -> breakpoint address: inside the function, the prologue_end row when it has one *)
 Definition fn_pe_rows (u : unit) (g : fn_info) : list row :=
@@ -516,7 +548,7 @@ Inductive lt_answer :=
 | APanic.                                  (* the call panicked *)
 
 Record lt_case := LC {
-  lc_ovf : bool;                 (* overflow checks compiled in (cfg!(debug_assertions) of the harness build) *)
+  lc_ovf : bool;                 (* overflow checks compiled in; irrelevant since 5a7aaa1 / 0bd2878, kept for the harness *)
   lc_units : list unit;          (* the units as the debugger holds them (sorted vectors) *)
   lc_prog : list (list row);     (* per unit: the line rows in program order from an independent
                                     decoder; a missing / empty entry means "use the debugger's vector" *)
@@ -551,7 +583,7 @@ Definition model_answer (c : lt_case) : lt_answer :=
   | QExact ui pc =>
       match nth_error us (N.to_nat ui) with
       | None => APanic
-      | Some u => ans_of_place (N.to_nat ui) (find_exact_place_by_pc (lc_ovf c) u pc)
+      | Some u => ans_of_place (N.to_nat ui) (find_exact_place_by_pc u pc)
       end
   | QUnit pc =>
       match find_unit_by_pc us pc with
